@@ -114,6 +114,11 @@ func (rs *ResourceSubscription) GetModel() (*Model, uint) {
 func (rs *ResourceSubscription) Unsubscribe(sub Subscriber) {
 	rs.e.Enqueue(func() {
 		if sub != nil {
+			if _, ok := rs.subs[sub]; !ok {
+				// The subscriber is already removed, and its count released,
+				// eg. by a delete event the subscriber has yet to process.
+				return
+			}
 			delete(rs.subs, sub)
 		}
 
